@@ -390,13 +390,67 @@ class ExtractHead(ast.NodeTransformer):
         return node
 
 
+class ToIfExp(ast.NodeTransformer):
+    """if c: x = A else: x = B  ->  x = A if c else B ;  if c: return A else: return B  ->  return A if c else B"""
+    def visit_If(self, node):
+        self.generic_visit(node)
+        if len(node.body) == 1 and len(node.orelse) == 1:
+            a, b = node.body[0], node.orelse[0]
+            if isinstance(a, ast.Assign) and isinstance(b, ast.Assign) and len(a.targets) == 1 and len(b.targets) == 1 \
+                    and ast.dump(a.targets[0]) == ast.dump(b.targets[0]) and isinstance(a.targets[0], (ast.Name, ast.Attribute)):
+                return ast.Assign(targets=a.targets, value=ast.IfExp(test=node.test, body=a.value, orelse=b.value))
+            if isinstance(a, ast.Return) and isinstance(b, ast.Return) and a.value is not None and b.value is not None:
+                return ast.Return(value=ast.IfExp(test=node.test, body=a.value, orelse=b.value))
+        return node
+
+
+class WhileTrue(ast.NodeTransformer):
+    """while c: B   ->   while True: if not c: break ; B      (no else clause)"""
+    def visit_While(self, node):
+        self.generic_visit(node)
+        if not node.orelse and not (isinstance(node.test, ast.Constant)):
+            brk = ast.If(test=ast.UnaryOp(op=ast.Not(), operand=node.test), body=[ast.Break()], orelse=[])
+            return ast.While(test=ast.Constant(value=True), body=[brk] + node.body, orelse=[])
+        return node
+
+
+class KwArgs(ast.NodeTransformer):
+    """positional -> keyword arguments at every call whose callee name is defined exactly once in the package
+    (self.m(..) / obj.m(..) / f(..)), using that definition's parameter names"""
+    defs = {}
+
+    def visit_Call(self, node):
+        self.generic_visit(node)
+        nm = node.func.attr if isinstance(node.func, ast.Attribute) else (node.func.id if isinstance(node.func, ast.Name) else None)
+        d = KwArgs.defs.get(nm)
+        if d is None or not node.args or any(isinstance(a, ast.Starred) for a in node.args) or any(k.arg is None for k in node.keywords):
+            return node
+        params, is_method = d
+        if is_method != isinstance(node.func, ast.Attribute):
+            return node
+        if isinstance(node.func, ast.Attribute) and not (isinstance(node.func.value, ast.Name) and node.func.value.id == 'self'):
+            return node  # only self.m(..): other receivers may be modules / foreign objects
+        if isinstance(node.func, ast.Attribute) and isinstance(node.func.value, ast.Name) and node.func.value.id[:1].isupper():
+            return node  # Class.method(obj, ..) keeps its shape
+        if len(node.args) > len(params):
+            return node
+        names = params[:len(node.args)]
+        if any(k.arg in names for k in node.keywords):
+            return node
+        node.keywords = [ast.keyword(arg=n, value=a) for n, a in zip(names, node.args)] + node.keywords
+        node.args = []
+        return node
+
+
 TRANSFORMS = {'T1': ('alpha-rename locals', Alpha), 'T2': ('if/else swap', IfSwap), 'T3': ('insert pass', PassIns),
               'T4': ('reverse keywords', KwRev), 'T5': ('expand augmented assignment', AugExp), 'T6': ('expand with-lock', LockExp),
               'T7': ('flip comparison operands', CmpFlip), 'T8': ('return through a temporary', RetTemp),
               'T9': ('guard clause -> if/else', GuardToElse), 'T10': ('hoist constructor-like arguments into temporaries', HoistArgs),
               'T11': ('rename private attributes', AttrRename), 'T12': ('dict display -> dict() call', DictCall),
               'T13': ('append loop -> list comprehension', LoopToComp), 'T14': ('extract the tail of every method into a new helper', ExtractTail),
-              'T15': ('extract the first two statements of every method into a new helper', ExtractHead)}
+              'T15': ('extract the first two statements of every method into a new helper', ExtractHead),
+              'T16': ('if/else assignments and returns -> conditional expressions', ToIfExp), 'T17': ('while c -> while True / break', WhileTrue),
+              'T18': ('positional -> keyword arguments (uniquely named package callees)', KwArgs)}
 
 
 def transform(src, cls):
@@ -430,6 +484,24 @@ def main():
     for src in base.values():
         for cls in [n for n in ast.walk(ast.parse(src)) if isinstance(n, ast.ClassDef)]:
             AttrRename.names |= {a for a in class_attrs(cls)}
+    count = {}
+    for src in base.values():
+        t_ = ast.parse(src)
+        for cls in [t_] + [n for n in ast.walk(t_) if isinstance(n, ast.ClassDef)]:
+            for fn in [n for n in cls.body if isinstance(n, ast.FunctionDef)]:
+                if fn.args.vararg or fn.args.kwarg or fn.args.posonlyargs or fn.decorator_list or fn.name.startswith('__'):
+                    count[fn.name] = count.get(fn.name, 0) + 2
+                    continue
+                count[fn.name] = count.get(fn.name, 0) + 1
+                ps = [a.arg for a in fn.args.args]
+                KwArgs.defs[fn.name] = (ps[1:] if cls is not t_ else ps, cls is not t_)
+    for n, c in count.items():
+        if c != 1:
+            KwArgs.defs.pop(n, None)
+    import builtins
+    for n in list(KwArgs.defs):
+        if hasattr(builtins, n) or n in ('read', 'write', 'seek', 'close', 'submit', 'result', 'done', 'cancel', 'get', 'put', 'wait', 'acquire', 'release', 'add_done_callback', 'shutdown', 'set_exception', 'set_result', 'tell', 'flush'):
+            KwArgs.defs.pop(n)
     ts = args or sorted(TRANSFORMS, key=lambda t: int(t[1:]))
     bad = 0
     for t in ts:
